@@ -662,8 +662,11 @@ class _ScanLoop:
         self.problems = []
         self.sites = 0
 
-    def regexes(self, call):
-        return _regex_instances(call.args[0])
+    def regexes(self, call, st=None):
+        a = call.args[0]
+        if isinstance(a, ast.Name) and st is not None and a.id in st.get("regs", {}):
+            return st["regs"][a.id]
+        return _regex_instances(a)
 
     def consuming(self, pats, failed):
         """does a successful match of every instance consume at least one character of a non-empty line on which `failed` did not match"""
@@ -715,7 +718,7 @@ class _ScanLoop:
         var = self.var
         # m, line = match(R, line)
         if isinstance(s, ast.Assign) and isinstance(s.targets[0], ast.Tuple) and len(s.targets[0].elts) == 2 and isinstance(s.value, ast.Call) and dotted(s.value.func) == self.helper and src(s.targets[0].elts[1]) == var and len(s.value.args) == 2 and src(s.value.args[1]) == var:
-            pats = self.regexes(s.value)
+            pats = self.regexes(s.value, st)
             self.sites += 1
             if pats is None:
                 self.problems.append((s, "regex of `%s` is not a constant" % src(s)))
@@ -734,9 +737,36 @@ class _ScanLoop:
                 new["m"][mv] = (pats, None, True)
                 new["note"] = _w
             return [("fall", new)]
+        # reg = "<pattern>" [% quote]
+        if isinstance(s, ast.Assign) and isinstance(s.targets[0], ast.Name) and _regex_instances(s.value) is not None and s.targets[0].id != var:
+            new = dict(st, regs=dict(st.get("regs", {})))
+            new["regs"][s.targets[0].id] = _regex_instances(s.value)
+            return [("fall", new)]
+        # the unfolded helper:  m, line = (mx, line[len(mx.group(0)):]) if mx else (None, line)
+        env_ = {}
+        if isinstance(s, ast.Assign) and P.matches(s, "($m, %s) = ($mx, %s[len($mx.group(0)):]) if $mx else (None, %s)" % (var, var, var), env_) and isinstance(env_["mx"][1], ast.Name) and env_["mx"][1].id in st["m"]:
+            pats, status, _c = st["m"][env_["mx"][1].id]
+            self.sites += 0
+            mv = src(env_["m"][1])
+            new = dict(st, m=dict(st["m"]))
+            if pats is None:
+                self.problems.append((s, "regex of `%s` is not a constant" % src(s)))
+                return [("fall", st)]
+            tot, _w = self.total(pats)
+            if tot:
+                ok, why = self.consuming(pats, st["failed"])
+                if ok:
+                    new["progress"] = True
+                else:
+                    new["note"] = why
+                new["m"][mv] = (pats, True, True)
+            else:
+                new["m"][mv] = (pats, None, True)
+                new["note"] = _w
+            return [("fall", new)]
         # m = re.match(R, line)
         if isinstance(s, ast.Assign) and isinstance(s.targets[0], ast.Name) and isinstance(s.value, ast.Call) and dotted(s.value.func) == "re.match" and len(s.value.args) >= 2 and src(s.value.args[1]) == var:
-            pats = self.regexes(s.value)
+            pats = self.regexes(s.value, st)
             self.sites += 1
             new = dict(st, m=dict(st["m"]))
             new["m"][s.targets[0].id] = (pats, None, False)
@@ -806,9 +836,10 @@ def scanner_loops(ctx):
         line = pn(fn, 0 if q.endswith(".in_multi_line") and "PythonPrinter" not in q else 1)
         loops = [n for n in walk_func(fn) if isinstance(n, ast.While) and isinstance(n.test, ast.Name) and n.test.id == line]
         ctx.require(len(loops) == 1, "%s: `while %s:` loop not found" % (q, line))
+        h = [f for f in fn.body if isinstance(f, ast.FunctionDef) and f.name == helper] if helper else []
+        if helper and not h:
+            helper = None  # the helper was unfolded into the loop (or never existed): the loop is followed directly
         if helper:
-            h = [f for f in fn.body if isinstance(f, ast.FunctionDef) and f.name == helper]
-            ctx.require(h, "%s: helper %s() not found" % (q, helper))
             hp = h[0]
             ok = P.has(hp, "$m = re.match(%s, %s)\nif $m:\n    return ($m, %s[len($m.group(0)):])\nelse:\n    return (None, %s)" % (pn(hp, 0), pn(hp, 1), pn(hp, 1), pn(hp, 1)))
             ctx.check(ok, "helper:" + q.split(".")[-2], db.where(hp), "the match helper does not return (match, rest after the match) / (None, unchanged text)", "match() returns the rest after a match, the text unchanged otherwise")
